@@ -544,6 +544,27 @@ theorem table_refines_map (ops : List Op) :
   rw [h0] at h
   exact h
 
+/-- decision logic stated outright: a DF1 command (no path of its own) is delivered to the PCCC Object **iff** this
+peer holds an open connection with that ID leading there; a CIP request is answered by the router unless the
+connection leads to the PCCC Object -/
+theorem df1_served_iff (t : Table) (p : Peer) (c : Nat) :
+    (step t (.send p c .df1)).2 = .viaPccc ↔ ∃ s, lookup t ⟨p, c⟩ = some ⟨s, .pccc⟩ := by
+  simp only [step]
+  cases h : lookup t ⟨p, c⟩ with
+  | none => simp [respond]
+  | some e =>
+    obtain ⟨s, tg⟩ := e
+    cases tg <;> simp [respond]
+
+theorem cip_served_iff (t : Table) (p : Peer) (c : Nat) :
+    (step t (.send p c .cip)).2 = .viaRouter ↔ ¬ ∃ s, lookup t ⟨p, c⟩ = some ⟨s, .pccc⟩ := by
+  simp only [step]
+  cases h : lookup t ⟨p, c⟩ with
+  | none => simp [respond]
+  | some e =>
+    obtain ⟨s, tg⟩ := e
+    cases tg <;> simp [respond]
+
 /-- the table is a dict: keys stay unique over every operation sequence -/
 theorem table_keys_unique (ops : List Op) : KeysNodup (run [] ops).1 :=
   run_keysNodup ops [] (by simp [KeysNodup])
